@@ -372,7 +372,7 @@ pub fn run(ctx: &Ctx, rep: &Report) -> Meta {
             }
             let n = 1 + (crate::gen::splitmix(&mut st) % 3) as usize;
             let hm = 1 + (crate::gen::splitmix(&mut st) as usize % ((1 << n) - 1)) as u8;
-            let c = Case { key: crate::gen::splitmix(&mut st) as u16, n, hidden_mask: hm, kind: [2u8, 0, 2, 1][k % 4], seed: crate::gen::splitmix(&mut st) as u32, small_mask: if k % 5 == 4 { hm } else { 0 }, hidden_list: vec![] };
+            let c = Case { key: crate::gen::splitmix(&mut st) as u16, n, hidden_mask: hm, kind: [2u8, 0, 2, 1][k % 4], seed: crate::gen::splitmix(&mut st) as u32, small_mask: if k % 5 == 4 { hm } else { 0 }, hidden_list: vec![], spare: (k % 3) as u8 };
             one(rep, "long-lived-prover-thread", &c)?;
         }
         rep.class_n("proofs-generated-on-long-lived-threads", per_thread as u64);
@@ -395,7 +395,7 @@ pub fn run(ctx: &Ctx, rep: &Report) -> Meta {
         }
     }
     Meta {
-        rule: "honest issuance proofs (with / without trusted commitment) and signature proofs for EVERY non-empty hidden set (n = 1..3 quick / 1..5 thorough) plus generated cases, high-entropy 256-bit attributes; \
+        rule: "honest issuance proofs (with / without trusted commitment) and signature proofs for EVERY non-empty hidden set (n = 1..3 quick / 1..5 thorough) plus generated cases, high-entropy 256-bit attributes, issuers with 0..3 more bases than attributes; \
                attacker program: every Fiat-Shamir challenge recomputable from public data (stored ones, C and C mod 2^128 of the interval proofs, and the (t, s1, s2) proofs' challenges recomputed as the verifier does and validated against the verification equation); \
                no response is congruent to 0 or 1 modulo a challenge (unblinded response, no secret needed); for every integer leaf s, every such challenge c and every other leaf s': | floor(s/c) - x | >= 2^64 and | floor(s/s') - x | >= 2^64 for every secret x the prover holds (hidden attributes, e, s, the randomness of C and of the trusted commitment); \
                additionally, with hidden attributes forced to 0 / 1, the response answering for each hidden attribute divided by its own challenge (sound for small values); for every square proof of every embedded range proof the public inverse map floor((floor(d/c)^2 + aa)/2^T), floor((bb - floor(d/c)^2)/2^T) must be >= 2^64 away from the committed value (hidden attribute, e, r); \
